@@ -258,3 +258,12 @@ Print Assumptions C08_snapshot_handover_partial.
 Theorem C08_sync_new : forall base l, Sync base (snew_state base l).
 Proof. exact sync_new. Qed.
 Print Assumptions C08_sync_new.
+
+(** PARTIAL towards "[Sync] holds in every reachable state": Snapshot, Finalise and IntermediateRoot —
+    the operations that rewrite the snapshot data wholesale (deletion of destructed accounts' data,
+    updateStateObject, updateTrie) — keep it; setters, getters, RevertToSnapshot and Copy are open *)
+Theorem C08_sync_block_ops_partial : forall base ss o p, Sync base ss -> ss_snap ss = Some p ->
+  match o with OSnapshot | OFinalise _ | OIntermediateRoot _ => True | _ => False end ->
+  Sync base (fst (sstep ss o)) /\ ss_snap (fst (sstep ss o)) = Some p.
+Proof. exact sync_sstep_block_ops. Qed.
+Print Assumptions C08_sync_block_ops_partial.
